@@ -999,3 +999,11 @@ Section YEval.
   Lemma ys_continue : forall f st r last y, ystmts (S f) st (SContinue :: r) last y = YCnt y.
   Proof. reflexivity. Qed.
 End YEval.
+
+Print Assumptions gc_run_nil.
+Print Assumptions mk_step_call.
+Print Assumptions mk_step_return_value.
+Print Assumptions mk_step_return.
+Print Assumptions mk_step_fused.
+Print Assumptions mk_step_get_local.
+Print Assumptions mk_step_set_local.
